@@ -38,6 +38,7 @@ type Case struct {
 	ErrOnly  bool      `json:"compare_error_only,omitempty"` // invalid UTF-8 names: encoders substitute U+FFFD (library behaviour)
 	Texts    []string  `json:"item_texts,omitempty"`         // item text of every non-blank row (for the no-silent-loss check)
 	Stray    string    `json:"stray_option,omitempty"`       // an output-encoding option given to mkdir / verify / walk, where it must not matter
+	Busy     bool      `json:"busy_elsewhere,omitempty"`     // the consumer of the iterator builds another tree between two items
 }
 
 // strayOpts: the encoding options belong to Output; Mkdir, Verify and Walk must behave the same with them.
@@ -239,6 +240,7 @@ func runCaseR(m *Model, c Case) ([]Diff, string) {
 		if c.Alias {
 			seq = gtree.WalkIterProgrammably(buildRoot(t), io...)
 		}
+		var kept []*gtree.WalkerNode
 		for wn, err := range seq {
 			if err != nil {
 				ierr = err
@@ -248,6 +250,17 @@ func runCaseR(m *Model, c Case) ([]Diff, string) {
 				break
 			}
 			vs = append(vs, showVisit(wn))
+			kept = append(kept, wn)
+			if c.Busy {
+				// other trees being built in between must not matter
+				gtree.NewRoot("elsewhere").Add("x").Add("y")
+			}
+		}
+		// the items stay what they were when they were yielded
+		for i, wn := range kept {
+			if showVisit(wn) != vs[i] {
+				return []Diff{{What: "an item yielded by the iterator changed after the loop moved on", Real: showVisit(wn), Model: vs[i]}}, ""
+			}
 		}
 		// a consumer that breaks after k items has consumed k items (the (k+1)-th is pulled but dropped)
 		realv := "v=" + showVisits(vs) + " e=" + classify(ierr)
